@@ -160,7 +160,12 @@ def build_cols(d, kind, n, ctx):
             last = pad_to("** ", " */", n, "c")
         if None in (first, mid, last):
             return None
-        block = [first, "** one", mid, "** two", last] if ctx["salt"] % 3 else [first, mid, last]
+        # the other lines of the comment may hold characters that some library routines take for line separators
+        exo = ["", "", "", "\f", "\v", "\u2028", "\x85", "\x1c", "\u00a0\u00e9"][(ctx["salt"] // 3) % 9]
+        one = "** one" + (exo + "page" if exo else "")
+        if kind != "block-first" and exo and first == "/*":
+            first = "/* " + exo + exo
+        block = [first, one, mid, "** two", last] if ctx["salt"] % 3 else [first, mid, last]
         idx = {"block-first": 0, "block-interior": block.index(mid), "block-last": len(block) - 1}[kind]
         if ftype == "h":
             lines = hdr(name) + ["#ifndef TEST_H", "# define TEST_H", ""]
